@@ -3,6 +3,9 @@ import Splipy.Lemmas.C04Seq
 import Splipy.Lemmas.C04Tensor
 import Splipy.Lemmas.C04Refine
 import Splipy.Lemmas.C04Periodic
+import Splipy.Lemmas.C04PerSeq
+import Splipy.Lemmas.C04Graded
+import Splipy.Lemmas.C04PerEval
 import Mathlib.Tactic.NormNum
 import Mathlib.Tactic.IntervalCases
 import Mathlib.Data.Rat.Floor
@@ -22,6 +25,21 @@ Vocabulary (defined in `Lemmas/C04*.lean`):
   for every `c`, side, parameter and derivative order;
 * `C04.fibre o dir a i` — the 1-D fibre of the control net along `dir` through outer index `a` and
   inner index `i` (for a curve: `a = 0`, `i` = the homogeneous coordinate).
+* `C04.wsum s τ q nAll n c d t = Σ_{i<nAll} c (i mod n) · dB s τ q i d t` — the periodic spline: sum over
+  all wrapped images of the `nAll = n+k+1` functions of the ghost-extended knot vector (this is what
+  `BSplineBasis.evaluate` computes for periodic bases, `C01_value_deriv_periodic`).
+* `C04.PerRefines b b' C k` — periodic analogue of `Refines`, with `wsum` on the domain
+  (`Side.mem start end t`) in place of `splineVal`/`splineDeriv`.
+* `C04.wrapVal b x0` — the value `insert_knot` really inserts into a periodic basis
+  (`x0` inside `[start,end]`, else `(x0-start) % (end-start) + start`).
+* `C04.matF`, `C04.repSeq` — the matrix of `insert_knot` (with its modular writes) as a function, and
+  the knot sequence after the periodic ghost repair.
+
+Overview: open directions — `C04_open`, `C04_open_interior`, `C04_sequence`, `C04_object`, `C04_curve`,
+`C04_refine`, `C04_graded`, `C04_rejects`; periodic directions (guard `n ≥ p+k`, value ≠ end) —
+`C04_periodic_boehm` (specification level), `C04_periodic_partial`, `C04_periodic_sequence_partial`,
+`C04_periodic_object_partial`, `C04_periodic_evaluate_curve_partial`; evaluator level for open
+directions of curves/surfaces/volumes — `Bridge_C04_*` in `Properties/Bridge.lean`.
 
 Theorems about the MODEL; multiplicities beyond the order are not excluded here (the spec's `0/0 = 0`
 makes Boehm's identity hold there too) although the real code produces NaN there — such inputs are
@@ -159,8 +177,11 @@ theorem C04_curve (o : Obj K) (n nc : ℕ) (hsh : o.cps.shape = [n, nc]) (hb : 0
 particular, with `w a i` = product of the other directions' basis values at a parameter tuple times a
 coordinate selector, the tensor-product evaluation `Σ_{i1..id} Π_k N_{ik}(u_k) P_{i1..id}`) is
 unchanged.  `_partial`: the identification of `Obj.evaluate`'s contraction over all axes with this
-weighted fibre sum (i.e. the multi-directional evaluation theorem) is not proved here; for curves
-`C04_curve` is complete. -/
+weighted fibre sum is not part of this file; it is done, with the real evaluator `Obj.evaluate`
+(snap, domain validation, projective division), in `Properties/Bridge.lean`:
+`Bridge_C04_curve`, `Bridge_C04_surface_u/v`, `Bridge_C04_volume_u/v/w`, `Bridge_C04_refine_*`
+(`o.insertKnots xs dir = .ok o'` ⇒ `o'.evaluate tol params = o.evaluate tol params` at admissible
+parameters, non-periodic directions).  For curves `C04_curve` is complete at the spec level. -/
 theorem C04_object_eval_partial (o : Obj K) (dir : ℕ) (hdir : dir < o.bases.size)
     (hax : dir < o.cps.shape.length) (hv : (o.basis dir).Valid) (hper : (o.basis dir).periodic = -1)
     (hshape : o.cps.shape.getD dir 0 = (o.basis dir).numFunctions) (xs : List K)
@@ -218,19 +239,70 @@ theorem C04_refine (o : Obj K) (tol : K) (htol : 0 ≤ tol) (n dir : ℕ) (hdir 
   exact ⟨hmem, hcall, o', C, hcall.trans h1, h2, h3,
     fun a i ha hi s t d => (h10 a i ha hi s t).2 d⟩
 
-/-- **Periodic bases, knot-vector half, under the guard `n ≥ p + k`.**
+/-- **`geometric_refine`** (`reverse=False`): for `α > 0`, `n ≥ 1` and non-negative tolerances the call
+IS `insert_knot` of at most `n` values (`knot_start + (Σ_{j≤i} α^j / Σ_{j≤n} α^j)·(knot_end-knot_start)`,
+those not filtered by `knot_exists`) which all lie strictly inside the domain; hence along a valid
+non-periodic direction it succeeds with all the conclusions of `C04_object`.
+(`reverse=True` additionally composes with `Obj.reverse` twice — property C06.) -/
+theorem C04_graded (o : Obj K) (tol atol rtol α : K) (htol : 0 ≤ tol) (hat : 0 ≤ atol)
+    (hrt : 0 ≤ rtol) (hα : 0 < α) (n : ℕ) (hn : 1 ≤ n) (dir : ℕ) (hdir : dir < o.bases.size)
+    (hpd : dir < o.pardim) (hv : (o.basis dir).Valid) (hper : (o.basis dir).periodic = -1)
+    (hshape : o.cps.shape.getD dir 0 = (o.basis dir).numFunctions) :
+    ∃ (xs : List K) (o' : Obj K) (C : Mat K),
+      o.geometricRefine tol atol rtol α (n : Int) dir false = o.insertKnots xs dir ∧
+      xs.length ≤ n ∧ (∀ v ∈ xs, (o.basis dir).start < v ∧ v < (o.basis dir).stop) ∧
+      o.geometricRefine tol atol rtol α (n : Int) dir false = .ok o' ∧
+      Refines (o.basis dir) (o'.basis dir) C xs.length ∧
+      (o'.basis dir).knots.toList.Perm (xs ++ (o.basis dir).knots.toList) ∧
+      ∀ a i, a < outerN o dir → i < innerN o dir → ∀ (s : Side) (t : K) (d : ℕ),
+        splineDeriv s (o'.basis dir).kn ((o.basis dir).order - 1)
+            ((o.basis dir).numFunctions + xs.length) (fibre o' dir a i) d t
+          = splineDeriv s (o.basis dir).kn ((o.basis dir).order - 1) (o.basis dir).numFunctions
+            (fibre o dir a i) d t := by
+  obtain ⟨xs, hcall, hlen, hmem⟩ :=
+    geometricRefine_values o tol atol rtol α htol hat hrt hα n hn dir hpd hv
+  have hax : dir < o.cps.shape.length := by unfold Obj.pardim at hpd; omega
+  obtain ⟨o', C, h1, h2, h3, _, _, _, _, _, _, h10⟩ := C04_object o dir hdir hax hv hper hshape xs
+    (fun v hv' => ⟨le_of_lt (hmem v hv').1, (hmem v hv').2⟩)
+  exact ⟨xs, o', C, hcall, hlen, hmem, hcall.trans h1, h2, h3,
+    fun a i ha hi s t d => (h10 a i ha hi s t).2 d⟩
+
+/-- **Periodic Boehm, specification level.**  `τ` monotone, ghost knots repeating with period `T`
+over `n` functions (`τ (i+n) = τ i + T` for the `p+k+1` indices of the array; `n+k+1` functions live on
+the ghost-extended vector), order `p = q+1`, continuity `k ≤ p-2`, guard `p+k ≤ n`; `x` inserted at
+`μ ∈ [p, n+k+1]`, `τ (μ-1) ≤ x ≤ τ μ`.  With the repaired knot sequence `repSeq` (what the two repair
+loops of `insert_knot` produce when source and target ranges are disjoint) and `c' = matF·c` (the
+matrix of `insert_knot` with its `i % (n+1)`, `i % n` writes, as a function), the periodic splines
+`wsum` (sum over all wrapped images) agree on the domain, for both one-sided versions and all
+derivatives.  Proof: open Boehm for `x` and for its periodic image `x ± T` on the unrolled vector with
+`c (i mod n)`, dropping the one function that leaves the window, folding indices. -/
+theorem C04_periodic_boehm (τ : ℕ → K) (x T : K) (n p k mu : ℕ) (s : Side) (hτ : Monotone τ)
+    (q : ℕ) (hpq : p = q + 1) (hp : k + 2 ≤ p) (hguard : p + k ≤ n)
+    (hg : ∀ i, i ≤ p + k → τ (i + n) = τ i + T) (h1 : p ≤ mu) (h2 : mu ≤ n + k + 1)
+    (hx : τ (mu - 1) ≤ x ∧ x ≤ τ mu) (c : ℕ → K) (d : ℕ) (t : K)
+    (ht : s.mem (τ (p - 1)) (τ (n + k + 1)) t) :
+    wsum s (repSeq (insertSeq τ mu x) mu n (p + k)) q (n + k + 1 + 1) (n + 1)
+        (mulVecF (matF τ x n p mu) n c) d t
+      = wsum s τ q (n + k + 1) n c d t :=
+  wsum_insert_periodic τ x T n p k mu s hτ q hpq hp hguard hg h1 h2 hx c d t ht
+
+/-- **Periodic bases under the guard `n ≥ p + k`.**
 For a valid periodic basis (continuity `k`, `n` functions, order `p`) with `n ≥ p + k` and ANY real
 `x0` whose wrapped image `x = wrapVal b x0` (`x0` itself inside `[start,end]`, else
 `(x0-start) % (end-start) + start`) is not the end of the domain:
 `insert_knot(x0)` = `insert_knot(x)` succeeds; the repaired knot vector is a valid periodic knot vector
 (sorted; the ghost knots repeat the interior ones with the unchanged period over `n+1` functions:
 "periodic images consistent"), with the same start and end, one more knot and function; away from the
-`p+k+1` ghost positions it is `np.insert(knots, μ, x)`; `C` is `(n+1) × n`.
-`_partial` — NOT proved: (i) the geometric half (that the spline with coefficients `C·c`, indices
-folded modulo `n+1`/`n`, is the same periodic function); (ii) `x = end` (the code raises `IndexError`
-there when the seam multiplicity `p-1-k ≥ 2`); (iii) `n < p + k`, where the two repair loops read
-knots they have already overwritten and the real code changes the geometry (both are reported
-defects of the pinned code, found by the oracle of this property). -/
+`p+k+1` ghost positions it is `np.insert(knots, μ, x)`; `C` is `(n+1) × n`; and **the geometry is
+unchanged**: for every coefficient vector `c`, side, derivative order and parameter `t` of the domain
+(`Side.mem start end`: `[start,end)` from the right, `(start,end]` from the left — the effective
+point/side of `C01_value_deriv_periodic`), the periodic spline `wsum` (the sum over all wrapped images
+that `BSplineBasis.evaluate` computes) with coefficients `C·c` on the new basis equals the one with `c`
+on the old basis.
+`_partial` — outside the theorem: (i) `x = end` (the code raises `IndexError` there when the seam
+multiplicity `p-1-k ≥ 2`); (ii) `n < p + k`, where the two repair loops read knots they have already
+overwritten and the real code changes the geometry.  Both are defects of the pinned code found by the
+oracle of this property (known findings). -/
 theorem C04_periodic_partial (b : Basis K) (hv : b.Valid) (k : ℕ) (hk : b.periodic = (k : Int))
     (hguard : b.order + k ≤ b.numFunctions) (x0 : K) (hne : wrapVal b x0 ≠ b.stop) :
     b.start ≤ wrapVal b x0 ∧ wrapVal b x0 < b.stop ∧
@@ -240,13 +312,81 @@ theorem C04_periodic_partial (b : Basis K) (hv : b.Valid) (k : ℕ) (hk : b.peri
       b'.numFunctions = b.numFunctions + 1 ∧ b'.start = b.start ∧ b'.stop = b.stop ∧
       (∀ j, b.order + k < j → j < b.numFunctions + 1 →
         b'.kn j = insertSeq b.kn (b.bisectR (wrapVal b x0)) (wrapVal b x0) j) ∧
-      Shape (b.numFunctions + 1) b.numFunctions C := by
+      Shape (b.numFunctions + 1) b.numFunctions C ∧
+      ∀ (c : ℕ → K) (s : Side) (d : ℕ) (t : K), s.mem b.start b.stop t →
+        wsum s b'.kn (b.order - 1) (b.nAll + 1) (b.numFunctions + 1) (mulVec C b.numFunctions c) d t
+          = wsum s b.kn (b.order - 1) b.nAll b.numFunctions c d t := by
   obtain ⟨h1, h2, _⟩ := wrapVal_mem b hv.start_lt_stop x0
   have hlt : wrapVal b x0 < b.stop := lt_of_le_of_ne h2 hne
   have hw := insertKnot_wrap b (by rw [hk]; omega) hv.start_lt_stop x0
   refine ⟨h1, hlt, hw, ?_⟩
   rw [hw]
-  exact insertKnot_periodic b hv k hk hguard (wrapVal b x0) ⟨h1, hlt⟩
+  exact insertKnot_periodic_geom b hv k hk hguard (wrapVal b x0) ⟨h1, hlt⟩
+
+/-- **Sequences of periodic insertions** (guard `n ≥ p+k` for the first basis; it then holds for
+all later ones): any list of reals whose wrapped images avoid the domain end: every step succeeds and
+the final basis `PerRefines` the first (valid periodic, same order/continuity/domain, `xs.length` more
+knots and functions, accumulated matrix maps coefficients to coefficients of the same periodic
+function on the domain, all derivatives, both sides).  `_partial`: same exclusions as
+`C04_periodic_partial`. -/
+theorem C04_periodic_sequence_partial (b : Basis K) (hv : b.Valid) (k : ℕ)
+    (hk : b.periodic = (k : Int)) (hguard : b.order + k ≤ b.numFunctions) (xs : List K)
+    (hxs : ∀ x ∈ xs, wrapVal b x ≠ b.stop) :
+    ∃ b' C, insertMany b (Mat.identity b.numFunctions) xs = .ok (b', C) ∧
+      PerRefines b b' C xs.length :=
+  insertMany_periodic b hv k hk hguard xs hxs
+
+/-- **Objects, periodic direction** (`Obj.insertKnots` along a valid periodic direction with
+`n ≥ p+k` and matching control-net length): success; refined periodic basis; other bases, `rational`
+untouched; net grows only along `dir`; every fibre of the new net is `C` applied to the old fibre;
+hence the periodic spline of every fibre (every homogeneous coordinate on every grid line) is
+unchanged on the domain.  `_partial`: same exclusions as `C04_periodic_partial`. -/
+theorem C04_periodic_object_partial (o : Obj K) (dir : ℕ) (hdir : dir < o.bases.size)
+    (hax : dir < o.cps.shape.length) (hv : (o.basis dir).Valid) (k : ℕ)
+    (hk : (o.basis dir).periodic = (k : Int))
+    (hguard : (o.basis dir).order + k ≤ (o.basis dir).numFunctions)
+    (hshape : o.cps.shape.getD dir 0 = (o.basis dir).numFunctions) (xs : List K)
+    (hxs : ∀ x ∈ xs, wrapVal (o.basis dir) x ≠ (o.basis dir).stop) :
+    ∃ o' C, o.insertKnots xs dir = .ok o' ∧
+      PerRefines (o.basis dir) (o'.basis dir) C xs.length ∧
+      (∀ d, d ≠ dir → o'.basis d = o.basis d) ∧ o'.rational = o.rational ∧
+      o'.cps.shape = o.cps.shape.set dir ((o.basis dir).numFunctions + xs.length) ∧
+      (∀ a i r, a < outerN o dir → i < innerN o dir → r < (o.basis dir).numFunctions + xs.length →
+        fibre o' dir a i r = mulVec C (o.basis dir).numFunctions (fibre o dir a i) r) ∧
+      ∀ a i, a < outerN o dir → i < innerN o dir → ∀ (s : Side) (d : ℕ) (t : K),
+        s.mem (o.basis dir).start (o.basis dir).stop t →
+        wsum s (o'.basis dir).kn ((o.basis dir).order - 1) ((o.basis dir).nAll + xs.length)
+            ((o.basis dir).numFunctions + xs.length) (fibre o' dir a i) d t
+          = wsum s (o.basis dir).kn ((o.basis dir).order - 1) (o.basis dir).nAll
+            (o.basis dir).numFunctions (fibre o dir a i) d t := by
+  obtain ⟨o', C, h1, h2, h3, h4, h5, _, _, h8, _⟩ :=
+    insertKnots_fibres_periodic o dir hdir hax hv k hk hguard hshape xs hxs
+  refine ⟨o', C, h1, h2, h3, h4, h5, h8, fun a i ha hi s d t ht => ?_⟩
+  have hn := numFunctions_pos hv
+  rw [wsum_congr s _ _ _ _ (by omega) _ _ d t (fun r hr => h8 a i r ha hi hr)]
+  exact h2.same (fibre o dir a i) s d t ht
+
+/-- **Periodic curves and the real evaluator.**  Curve over a valid periodic basis `b1` with
+`n ≥ p+k`, rational or not; reals `xs` whose wrapped images are not the domain end; `tol > 0`
+(`state.knot_tolerance`); parameters `us` admissible for `b1` (`Basis.Admissible`: every tolerance
+comparison exact at `u` and at the wrapped point):
+`insert_knot(xs)` succeeds, the new basis is valid with `xs.length` more functions, and
+`o'.evaluate tol [us] = o.evaluate tol [us]` (the same tensor, or the same error) provided the
+parameters are admissible for the new basis as well.  (For non-periodic directions of curves,
+surfaces and volumes see `Bridge_C04_*` in `Properties/Bridge.lean`.)
+`_partial`: same exclusions as `C04_periodic_partial`; surfaces/volumes with a periodic direction are
+covered fibre-wise by `C04_periodic_object_partial` only. -/
+theorem C04_periodic_evaluate_curve_partial {o : Obj K} {b1 : Basis K} (hb : o.bases = #[b1])
+    (hv1 : b1.Valid) (k : ℕ) (hk : b1.periodic = (k : Int))
+    (hguard : b1.order + k ≤ b1.numFunctions) {nc : ℕ}
+    (hs : o.cps.shape = [b1.numFunctions, nc]) (hnc : o.rational = true → 1 ≤ nc)
+    (xs : List K) (hxs : ∀ x ∈ xs, wrapVal b1 x ≠ b1.stop) {tol : K} (htol : 0 < tol)
+    {us : List K} (hus : ∀ u ∈ us, b1.Admissible tol u) :
+    ∃ o', o.insertKnots xs 0 = .ok o' ∧ (o'.basis 0).Valid ∧
+      (o'.basis 0).numFunctions = b1.numFunctions + xs.length ∧
+      ((∀ u ∈ us, (o'.basis 0).Admissible tol u) →
+        o'.evaluate tol [us] true = o.evaluate tol [us] true) :=
+  evaluate_unchanged_periodic_curve hb hv1 k hk hguard hs hnc xs hxs htol hus
 
 /-! ## Non-vacuity: the hypotheses are satisfiable (concrete instances at `ℚ`) -/
 
@@ -391,3 +531,91 @@ example : ∃ b' C, C04_exPer.insertKnot 0 = .ok (b', C) ∧ b'.Valid ∧ b'.num
   obtain ⟨_, _, _, b', C, h1, h2, _, _, _, h6, _⟩ :=
     C04_periodic_partial C04_exPer C04_exPer_valid 0 rfl (by decide) 0 hne
   exact ⟨b', C, h1, h2, h6⟩
+
+/-- C04_graded: `geometric_refine(curve, 1/2, 3)`. -/
+example : ∃ o', C04_exCurve.geometricRefine (1/10000000000) (1/10000000) (1/10000000000) (1/2)
+    (3 : ℕ) 0 false = .ok o' := by
+  obtain ⟨_, o', _, _, _, _, h, _⟩ := C04_graded C04_exCurve (1/10000000000) (1/10000000)
+    (1/10000000000) (1/2) (by norm_num) (by norm_num) (by norm_num) (by norm_num) 3 (by norm_num) 0
+    C04_exCurve_hyps.1 (by decide) C04_exCurve_hyps.2.1 rfl C04_exCurve_hyps.2.2.2
+  exact ⟨o', h⟩
+
+/-- Periodic curve over `C04_exPer` (4 control points, 2 coordinates). -/
+def C04_exPerCurve : Obj ℚ :=
+  { bases := #[C04_exPer], cps := { shape := [4, 2], data := #[0, 0, 1, 2, 3, 1, 2, -1] },
+    rational := false }
+
+/-- C04_periodic_partial, geometric clause: the periodic spline is unchanged at `t = 5/2` from the
+left after inserting `7/2` (wrapped to `1/2`). -/
+example : ∃ b' C, C04_exPer.insertKnot (7/2) = .ok (b', C) ∧
+    wsum .left b'.kn 2 (C04_exPer.nAll + 1) 5 (mulVec C 4 (fun i => (i : ℚ) ^ 2)) 1 (5/2)
+      = wsum .left C04_exPer.kn 2 C04_exPer.nAll 4 (fun i => (i : ℚ) ^ 2) 1 (5/2) := by
+  have hne : wrapVal C04_exPer (7/2) ≠ C04_exPer.stop :=
+    ne_of_lt ((wrapVal_mem C04_exPer C04_exPer_valid.start_lt_stop (7/2)).2.2
+      (by rw [C04_exPer_stop]; norm_num))
+  obtain ⟨_, _, _, b', C, h1, _, _, _, _, _, _, _, _, _, hgeo⟩ :=
+    C04_periodic_partial C04_exPer C04_exPer_valid 0 rfl (by decide) (7/2) hne
+  refine ⟨b', C, h1, hgeo _ .left 1 (5/2) ?_⟩
+  rw [C04_exPer_stop]
+  change C04_exPer.kn 2 < 5/2 ∧ (5/2 : ℚ) ≤ 3
+  norm_num [Basis.kn, C04_exPer]
+
+/-- C04_periodic_boehm on the knot sequence of `C04_exPer` (`x = 1/2` at `μ = 3`). -/
+example : wsum .right (repSeq (insertSeq C04_exPer.kn 3 (1/2)) 3 4 (3 + 0)) 2 (4 + 0 + 1 + 1) (4 + 1)
+      (mulVecF (matF C04_exPer.kn (1/2) 4 3 3) 4 (fun i => (i : ℚ))) 0 (1/4)
+    = wsum .right C04_exPer.kn 2 (4 + 0 + 1) 4 (fun i => (i : ℚ)) 0 (1/4) :=
+  C04_periodic_boehm C04_exPer.kn (1/2) 3 4 3 0 3 .right (kn_mono C04_exPer_valid.sorted) 2 rfl
+    (by decide) (by decide)
+    (by
+      intro i hi
+      have hi' : i < 4 := by omega
+      interval_cases i <;> norm_num [Basis.kn, C04_exPer])
+    (by decide) (by decide) (by norm_num [Basis.kn, C04_exPer]) _ 0 (1/4)
+    (by change C04_exPer.kn 2 ≤ 1/4 ∧ (1/4 : ℚ) < C04_exPer.kn 5; norm_num [Basis.kn, C04_exPer])
+
+/-- C04_periodic_sequence_partial / C04_periodic_object_partial: seam, interior, a value outside. -/
+example : ∃ b' C, insertMany C04_exPer (Mat.identity C04_exPer.numFunctions) [0, 1/2, -5/2]
+    = .ok (b', C) ∧ PerRefines C04_exPer b' C 3 := by
+  refine C04_periodic_sequence_partial C04_exPer C04_exPer_valid 0 rfl (by decide) [0, 1/2, -5/2] ?_
+  intro x hx
+  refine ne_of_lt ((wrapVal_mem C04_exPer C04_exPer_valid.start_lt_stop x).2.2 ?_)
+  rw [C04_exPer_stop]
+  simp only [List.mem_cons, List.not_mem_nil, or_false] at hx
+  rcases hx with rfl | rfl | rfl <;> norm_num
+
+example : ∃ o', C04_exPerCurve.insertKnots [1/2, 2] 0 = .ok o' ∧ o'.cps.shape = [6, 2] := by
+  obtain ⟨o', C, h1, _, _, _, h5, _⟩ := C04_periodic_object_partial C04_exPerCurve 0 (by decide)
+    (by decide) C04_exPer_valid 0 rfl (by decide) (by decide) [1/2, 2]
+    (by
+      intro x hx
+      refine ne_of_lt ((wrapVal_mem C04_exPer C04_exPer_valid.start_lt_stop x).2.2 ?_)
+      rw [C04_exPer_stop]
+      simp only [List.mem_cons, List.not_mem_nil, or_false] at hx
+      rcases hx with rfl | rfl <;> norm_num)
+  exact ⟨o', h1, h5⟩
+
+/-- C04_periodic_evaluate_curve_partial. -/
+example : ∃ o', C04_exPerCurve.insertKnots [1/2, -5/2] 0 = .ok o' ∧
+    (o'.basis 0).numFunctions = 6 := by
+  have hex : C04_exPer.ExactAt (1/1000) (1/4) := by
+    intro i hi
+    have hi' : i < 8 := hi
+    interval_cases i <;> norm_num [Basis.kn, C04_exPer, abs_of_nonneg, abs_of_neg]
+  have hw : C04_exPer.wrap (1/4) = 1/4 :=
+    C04_exPer.wrap_of_mem (by norm_num [Basis.start, Basis.kn, C04_exPer])
+      (by rw [C04_exPer_stop]; norm_num)
+  obtain ⟨o', h1, _, h3, _⟩ := C04_periodic_evaluate_curve_partial (o := C04_exPerCurve)
+    (b1 := C04_exPer) rfl C04_exPer_valid 0 rfl (by decide) (nc := 2) rfl (by decide) [1/2, -5/2]
+    (by
+      intro x hx
+      refine ne_of_lt ((wrapVal_mem C04_exPer C04_exPer_valid.start_lt_stop x).2.2 ?_)
+      rw [C04_exPer_stop]
+      simp only [List.mem_cons, List.not_mem_nil, or_false] at hx
+      rcases hx with rfl | rfl <;> norm_num)
+    (tol := 1/1000) (by norm_num) (us := [1/4])
+    (by
+      intro u hu
+      simp only [List.mem_cons, List.not_mem_nil, or_false] at hu
+      subst hu
+      exact ⟨hex, fun h => absurd h (by decide), fun _ => by rw [hw]; exact hex⟩)
+  exact ⟨o', h1, h3⟩
